@@ -101,6 +101,7 @@ let run (st : stream) (b : Buffer.t) : unit =
           | "new" -> true
           | "move" -> is_member (av 0) && ai 1 < ncyc
           | "remove" | "succ" | "update" -> is_member (av 0)
+          | "update2" -> is_member (av 0) && is_member (av 3)
           | "addown" -> not (is_member (av 0))
           | "addend" -> not (is_member (av 0)) && ai 1 < ncyc
           | "threeopt" ->
@@ -109,16 +110,16 @@ let run (st : stream) (b : Buffer.t) : unit =
           | _ -> false in
         if kind = "new" then tainted := false;
         if not valid then tainted := true;
-        let result : (transition * (vehicle_id * tour) option) option res =
+        let result : (transition * (vehicle_id * tour) list) option res =
           match kind with
-          | "new" -> (match new_fast nw vehicles (tf ()) with Ok t -> Ok (Some (t, None)) | Err -> Err | Panic -> Panic | OutOfFuel -> OutOfFuel)
-          | "move" -> (match move_vehicle nw !tr (av 0) (an 1) (tf ()) with Ok t -> Ok (Some (t, None)) | Err -> Err | Panic -> Panic | OutOfFuel -> OutOfFuel)
-          | "remove" -> (match remove_vehicle nw !tr (av 0) no (tf ()) with Ok t -> Ok (Some (t, None)) | Err -> Err | Panic -> Panic | OutOfFuel -> OutOfFuel)
+          | "new" -> (match new_fast nw vehicles (tf ()) with Ok t -> Ok (Some (t, [])) | Err -> Err | Panic -> Panic | OutOfFuel -> OutOfFuel)
+          | "move" -> (match move_vehicle nw !tr (av 0) (an 1) (tf ()) with Ok t -> Ok (Some (t, [])) | Err -> Err | Panic -> Panic | OutOfFuel -> OutOfFuel)
+          | "remove" -> (match remove_vehicle nw !tr (av 0) no (tf ()) with Ok t -> Ok (Some (t, [])) | Err -> Err | Panic -> Panic | OutOfFuel -> OutOfFuel)
           | "addown" ->
             (match (tf ()) (av 0) with
-             | Some i -> (match add_vehicle_to_own_cycle nw !tr (av 0) i with Ok t -> Ok (Some (t, None)) | Err -> Err | Panic -> Panic | OutOfFuel -> OutOfFuel)
+             | Some i -> (match add_vehicle_to_own_cycle nw !tr (av 0) i with Ok t -> Ok (Some (t, [])) | Err -> Err | Panic -> Panic | OutOfFuel -> OutOfFuel)
              | None -> Panic)
-          | "addend" -> (match add_vehicle_at_the_end nw !tr (av 0) (an 1) no (tf ()) with Ok t -> Ok (Some (t, None)) | Err -> Err | Panic -> Panic | OutOfFuel -> OutOfFuel)
+          | "addend" -> (match add_vehicle_at_the_end nw !tr (av 0) (an 1) no (tf ()) with Ok t -> Ok (Some (t, [])) | Err -> Err | Panic -> Panic | OutOfFuel -> OutOfFuel)
           | "update" ->
             let v = av 0 in
             (match List.find_opt (fun (x, _) -> vid_eqb x v) !tours with
@@ -128,15 +129,31 @@ let run (st : stream) (b : Buffer.t) : unit =
                (match (if List.nth args 1 = "rsd" then replace_start_depot nw old d else replace_end_depot nw old d) with
                 | Ok nt ->
                   (match update_vehicle nw !tr v (info_of nw nt) no (tf ()) with
-                   | Ok t -> Ok (Some (t, Some (v, nt))) | Err -> Err | Panic -> Panic | OutOfFuel -> OutOfFuel)
+                   | Ok t -> Ok (Some (t, [(v, nt)])) | Err -> Err | Panic -> Panic | OutOfFuel -> OutOfFuel)
                 | Err -> Ok None
                 | _ -> Panic))
+          | "update2" ->
+            let v1 = av 0 and v2 = av 3 in
+            let mk v k d =
+              match List.find_opt (fun (x, _) -> vid_eqb x v) !tours with
+              | None -> Panic
+              | Some (_, old) -> if k = "rsd" then replace_start_depot nw old d else replace_end_depot nw old d in
+            (match mk v1 (List.nth args 1) (parse_nid (List.nth args 2)), mk v2 (List.nth args 4) (parse_nid (List.nth args 5)) with
+             | Ok n1, Ok n2 when not (vid_eqb v1 v2) ->
+               (match update_vehicle nw !tr v1 (info_of nw n1) no (tf ()) with
+                | Ok t1 ->
+                  let upd : vehicle_id -> vinfo option = fun x -> if vid_eqb x v1 then Some (info_of nw n1) else None in
+                  (match update_vehicle nw t1 v2 (info_of nw n2) upd (tf ()) with
+                   | Ok t2 -> Ok (Some (t2, [(v1, n1); (v2, n2)])) | Err -> Err | Panic -> Panic | OutOfFuel -> OutOfFuel)
+                | Err -> Err | Panic -> Panic | OutOfFuel -> OutOfFuel)
+             | Panic, _ | _, Panic -> Panic
+             | _ -> Ok None)
           | "threeopt" ->
             (match List.nth_opt !tr.tr_cycles (int_of_string (List.nth args 0)) with
              | None -> Panic
              | Some c ->
                (match three_opt nw c (an 1) (an 2) (an 3) (tf ()) with
-                | Ok c2 -> (match replace_cycle !tr (an 0) c2 with Ok t -> Ok (Some (t, None)) | _ -> Panic)
+                | Ok c2 -> (match replace_cycle !tr (an 0) c2 with Ok t -> Ok (Some (t, [])) | _ -> Panic)
                 | _ -> Panic))
           | "succ" ->
             (match get_successor_of !tr (av 0) with
@@ -152,11 +169,9 @@ let run (st : stream) (b : Buffer.t) : unit =
             | "new" -> members := vehicles
             | _ -> ());
            let lbl = head ^ " -> OK" in
-           (match upd with
-            | Some (v, nt) ->
-              tours := List.map (fun (x, t) -> if vid_eqb x v then (x, nt) else (x, t)) !tours;
-              report (lbl ^ "\n" ^ vi_line nw v nt)
-            | None -> report lbl)
+           List.iter (fun (v, nt) ->
+             tours := List.map (fun (x, t) -> if vid_eqb x v then (x, nt) else (x, t)) !tours) upd;
+           report (String.concat "\n" (lbl :: List.map (fun (v, nt) -> vi_line nw v nt) upd))
          | Ok None -> report (head ^ " -> NOOP")
          | _ -> report (head ^ " -> PANIC"))) ops
     end
